@@ -504,7 +504,14 @@ func (k *keeper) SignHash(sid string, hash [32]byte) (*pocec.Signature, error) {
 		return nil, errors.New("unknown space")
 	}
 	ev := vh.Event{"ev": "Sign", "k": name, "round": -1}
-	if r := k.w.cur(); r != nil && !r.first.IsZero() {
+	// the miner signs for the template it was served last (that round may already be over for the chain)
+	var r *round
+	for _, x := range k.w.rounds {
+		if !x.first.IsZero() {
+			r = x
+		}
+	}
+	if r != nil {
 		r.signMs, r.signOff = time.Since(r.first).Milliseconds(), nowSlot()-r.B
 		r.signAbs = time.Since(k.w.t0).Milliseconds()
 		ev["round"], ev["ms"], ev["off"] = r.idx, r.signMs, r.signOff
